@@ -55,6 +55,7 @@ type Exec struct {
 	pkgByPath   map[string]*ssa.Package
 	fnByKey     map[string]*ssa.Function
 	loopFreshFn func(v ssa.Value, depth int) bool
+	allocRankN  int
 	alias       map[*ssa.Function]string
 }
 
@@ -204,6 +205,30 @@ func (x *Exec) heapWfAxiom(h *Term, comp string, alloc *Term) {
 		return
 	}
 	x.U.AddAxiom(h.Op, ax)
+}
+
+// rowWfAssume: the content of a havocked object is well-formed.
+func (x *Exec) rowWfAssume(st *State, row *Term, comp string, alloc *Term) {
+	switch {
+	case strings.HasPrefix(comp, "HS_"):
+		_, es := row.Sort.ArrayParts()
+		i := Var("wi", SInt)
+		e := Select(row, i)
+		if w := x.wfSortAt(alloc, e, es, 0); !w.IsTrue() {
+			st.assume(Forall([]*Term{i}, w, []*Term{e}))
+		}
+	case strings.HasPrefix(comp, "HP_"):
+		if w := x.wfSortAt(alloc, row, row.Sort, 0); !w.IsTrue() {
+			st.assume(w)
+		}
+	case strings.HasPrefix(comp, "MV_"):
+		ks, vs := row.Sort.ArrayParts()
+		k := Var("wk", ks)
+		e := Select(row, k)
+		if w := x.wfSortAt(alloc, e, vs, 0); !w.IsTrue() {
+			st.assume(Forall([]*Term{k}, w, []*Term{e}))
+		}
+	}
 }
 
 // wfSortAt: sort-directed well-formedness (plain Int fields are skipped unless the struct type says they are references).
@@ -529,6 +554,8 @@ func (x *Exec) VerifyFunc(fn *ssa.Function, spec *FuncSpec) (obls []*Obligation,
 	x.vc = vc
 	vc.trackPanics = spec.NoPanic || len(spec.PanicsIf) > 0 || len(spec.PanicsIff) > 0
 	vc.allocBase = Var("alloc_0", SInt)
+	allocRanks = map[string]int{"alloc_0": 0}
+	x.allocRankN = 0
 	st := &State{heap: map[string]*Term{}, alloc: vc.allocBase, cells: map[cellKey]*Term{}, globals: map[*ssa.Global]*Term{},
 		ghost: map[string]*Term{}, freshID: map[string]bool{}}
 	st.assume(Cmp(">=", vc.allocBase, IntLit(1)))
@@ -577,6 +604,10 @@ func (x *Exec) VerifyFunc(fn *ssa.Function, spec *FuncSpec) (obls []*Obligation,
 
 func (x *Exec) freshParam(st *State, name string, t types.Type) *Term {
 	v := Var("p_"+sanitize(name), x.TI.SortOf(t))
+	switch types.Unalias(t).Underlying().(type) {
+	case *types.Pointer, *types.Map:
+		allocRanks[v.Op] = -1
+	}
 	st.assume(x.wf(st, v, t))
 	return v
 }
@@ -737,8 +768,10 @@ func (x *Exec) checkInvariants(st *State, fr *Frame, lp *Loop, ls *LoopSpec, pha
 			if label == "" {
 				label = fmt.Sprintf("%d", i+1)
 			}
+			pre := env.takeSide()
+			rv := x.revealAxioms(env, c.Reveal)
 			t := x.evalBool(env, c.E)
-			side := env.takeSide()
+			side := append(append(pre, rv...), env.takeSide()...)
 			x.oblige(st, fmt.Sprintf("loop%d.hint.%s", lp.ordinal, label), "", c.Props, t, c.Src, side...)
 			st.assume(And(side...))
 			st.assume(t)
@@ -749,8 +782,9 @@ func (x *Exec) checkInvariants(st *State, fr *Frame, lp *Loop, ls *LoopSpec, pha
 		if label == "" {
 			label = fmt.Sprintf("%d", i+1)
 		}
+		rv := x.revealAxioms(env, c.Reveal)
 		t := x.evalBool(env, c.E)
-		side := env.takeSide()
+		side := append(rv, env.takeSide()...)
 		x.oblige(st, fmt.Sprintf("loop%d.inv.%s", lp.ordinal, label), phase, c.Props, t, c.Src, side...)
 	}
 }
@@ -798,6 +832,8 @@ func (x *Exec) havocLoop(st *State, fr *Frame, lp *Loop) {
 		nb := x.freshVar("alloc_h", SInt)
 		st.assume(Cmp(">=", nb, allocPre))
 		st.alloc = nb
+		x.allocRankN++
+		allocRanks[nb.Op] = x.allocRankN
 	}
 	for _, a := range cells {
 		key := cellKey{fr.id, a}
@@ -835,10 +871,21 @@ func (x *Exec) havocLoop(st *State, fr *Frame, lp *Loop) {
 			entryH := x.heapGet(x.vc.entry, c, w.sort)
 			st.assume(Forall([]*Term{a}, Implies(And(cond...), Eq(Select(nh, a), Select(entryH, a))), []*Term{Select(nh, a)}))
 		} else {
+			// known targets: only those objects are havocked (row-level), everything else keeps its term
+			_, rowSort := w.sort.ArrayParts()
+			cur := pre
+			seen := map[string]bool{}
 			for _, id := range w.targets {
-				cond = append(cond, Not(Eq(a, id)))
+				if id.Kind == kLit || seen[id.String()] {
+					continue // -1 marks objects allocated inside the loop: nothing that existed at the head is written
+				}
+				seen[id.String()] = true
+				row := x.freshVar(c+"_row", rowSort)
+				cur = Store(cur, id, row)
+				x.rowWfAssume(st, row, c, st.alloc)
 			}
-			st.assume(Forall([]*Term{a}, Implies(And(cond...), Eq(Select(nh, a), Select(pre, a))), []*Term{Select(nh, a)}))
+			st.heap[c] = cur
+			continue
 		}
 		st.heap[c] = nh
 		x.heapWfAxiom(nh, c, st.alloc)
